@@ -184,7 +184,8 @@ def run(repo, chk):
     # R14.3
     br = repo.func("utils._build_refstring")
     r = returns_of(br.node)
-    ok = len(r) == 1 and norm(r[0].value) == "f'/{module}/' + '/'.join(path)"
+    from ..astq import str_parts
+    ok = len(r) == 1 and str_parts(r[0].value) == ["/", "{module}", "/", "{'/'.join(path)}"]
     chk.ob("R14.3", "utils._build_refstring:shape", ok, br.where, "reference = '/' module '/' path joined by '/'")
     ok = facts_of(br).has("module = ''", exactly=["module == '__main__'"])
     chk.ob("R14.3", "utils._build_refstring:main-is-empty", ok, br.where, "__main__ is written as the empty module")
